@@ -9,9 +9,14 @@ package gossip
 // Failure detector (C12)
 
 // sumTo(d, o, n): the sum of the first n elements of the view of d at offset o.
+// The recursive definition unfolds once: sumTo is defined through sumRest (the same
+// function, but no axiom is triggered by it), so that instantiating the definition
+// does not produce a term that triggers it again (no matching loop).
 //@ uninterp sumTo(d arr[int64], o int, n int) int
+//@ uninterp sumRest(d arr[int64], o int, n int) int
+//@ axiom sumSame: forall d arr[int64], o int, n int {sumTo(d, o, n)} :: sumTo(d, o, n) == sumRest(d, o, n)
 //@ axiom sumTo0: forall d arr[int64], o int {sumTo(d, o, 0)} :: sumTo(d, o, 0) == 0
-//@ axiom sumToS: forall d arr[int64], o int, n int {sumTo(d, o, n)} :: n > 0 ==> sumTo(d, o, n) == sumTo(d, o, n-1) + at(d, o, n-1)
+//@ axiom sumToS: forall d arr[int64], o int, n int {sumTo(d, o, n)} :: n > 0 ==> sumTo(d, o, n) == sumRest(d, o, n-1) + at(d, o, n-1)
 
 // Writing at or beyond position n of the view does not change the sum of the first n.
 //@ lemma sumFrame(d arr[int64], o int, p int, v int64, n int)
@@ -29,6 +34,7 @@ package gossip
 //@   opt export true
 //@   opt trigger sumTo(store(d, p, v), o, n)
 //@   requires[inside] o <= p && p < o + n
+//@   ensures[hint-prefix] p == o + n - 1 ==> sumTo(store(d, p, v), o, n - 1) == sumTo(d, o, n - 1)
 //@   ensures[replaced] sumTo(store(d, p, v), o, n) == sumTo(d, o, n) - sel(d, p) + v
 
 // allPos(d, o, n): the first n elements of the view are all at least 1.
@@ -63,6 +69,7 @@ package gossip
 //@   requires[inv] aiInv(i)
 //@   requires[positive] interval >= 1
 //@   modifies i.index, i.isFull, i.sum, i.mean, elems(i.intervals)
+//@   ensures[prefix-kept] old(aiSize(i)) < len(i.intervals) ==> sumTo(aiData(i), off(i.intervals), old(aiSize(i))) == old(sumTo(aiData(i), off(i.intervals), aiSize(i)))
 //@   ensures[inv] aiInv(i)
 //@   ensures[stored] at(aiData(i), off(i.intervals), old(aiSlot(i))) == interval
 //@   ensures[others] forall j int :: 0 <= j && j < len(i.intervals) && j != old(aiSlot(i)) ==> at(aiData(i), off(i.intervals), j) == old(at(aiData(i), off(i.intervals), j))
